@@ -49,6 +49,18 @@ CHECKS = {
           'ring', 'DESIGN.md section 4 C06',
           'Generated ordered node lists and leave/rejoin histories through the real router; after every operation the real preference list at every ring position (or every boundary position) is compared with an independent re-implementation of the published algorithm, with the list before the operation (minimal disruption) and at the end with a fresh router (history independence). The algorithm\'s own join-order dependence under collisions is a recorded known finding.',
           'Reference ring in verif/ref/ring.py is self-checked against the literal vectors of the repository tests.'),
+  'C12': ('exploration', 'property-based testing against an evaluator written from the documented file formats (re-free pattern matcher), three listeners compared',
+          'wire', 'DESIGN.md section 4 C12',
+          'Generated whitelist/blacklist files (loaded from real files, regenerated mid-case), names, NaN/inf values, -1 and fractional timestamps, resolutions 0/1/10/60 on the line, UDP and pickle listeners with a virtual clock; delivered datapoints must equal the documented admission rules exactly.',
+          'Unrestricted regexes are evaluated with re (list semantics only); timestamps >= 0 or exactly -1.'),
+  'C13': ('exploration', 'exhaustive sweep of loaded (module, attribute) pairs + canary-based property-based testing over all global-resolving pickle routes + generated opcode programs and mutations',
+          'wire', 'DESIGN.md section 4 C13',
+          'Every module loaded in the daemon process x attributes through GLOBAL/STACK_GLOBAL (bare and nested in datapoint lists), all ten global-resolving routes for a canary set (recording callables, an unimported module, dotted names, allow-list neighbours), generated opcode programs and mutations; fed to the selected unpickler, the pickle listener and the cache query port; oracle: no canary call/import, no dangerous audit event, rejection of every off-list global, only plain data results.',
+          'Audit-hook watch list is deliberately narrow; the two allow-listed pairs may load.'),
+  'C14': ('exploration', 'exhaustive enumeration of short names over an attack alphabet + property-based testing with path-attack tokens + real file creation in a sandbox',
+          'paths', 'DESIGN.md section 4 C14',
+          'All names up to length 5/6 over a 10-character attack alphabet x both TAG_HASH_FILENAMES x the real WhisperDatabase and CeresDatabase classes, plus generated long attack names; normalised and real paths must stay inside the data directory, mapping deterministic and injective on the documented class; sampled names are really created and the sandbox is swept. One genuine defect (ceres absolute node path) found and fixed.',
+          'whisper/ceres libraries replaced by stubs (file creation, documented ceres node mapping).'),
 }
 
 PENDING_REASON = 'check not built yet in this session (design in DESIGN.md section 4); will be claimed once its check is quiet on the unchanged tree and catches its mutants'
